@@ -21,6 +21,7 @@
 import DV.Proofs.NodeOutLen
 import DV.Proofs.NodeLive
 import DV.Proofs.NodeOut
+import DV.Proofs.NodeQ
 namespace DV.Node
 
 /-- every (id, state) pair of `s'` in a ready state was there in `s` already -/
@@ -149,5 +150,36 @@ example :
     let r := receiveCer s 0 m { (default : MsgInfo) with typed := true, ansTyped := true }
     (r.1.conns.map fun c => (c.state, c.outQ.map (·.rc))) = [(.ready, [some 2001])] ∧ r.2.isNone = true := by
   decide +kernel
+
+/-! ### the other direction: the CEA on a connection the node dialled -/
+
+theorem NoNewReady_closeConnectionSocket (s : St) (cid : Nat) (r : Reason) : NoNewReady (closeConnectionSocket s cid r) s := by
+  have hrm : ∀ s1 : St, NoNewReady (removePeerConnection s1 cid r) s1 :=
+    fun s1 => NoNewReady.of_eq (by unfold St.stv; rw [removePeerConnection_conns])
+  unfold closeConnectionSocket
+  split
+  · exact (hrm _).trans ((NoNewReady_connClose _ _ _).trans (NoNewReady.of_eq (stv_modConn_tame _ _ _ (by tame))))
+  · exact hrm s
+
+/-- **An outbound connection becomes ready only on a 2001 CEA** (one that names its sender), and `receive_cea` queues
+    nothing; any other result goes through `close_connection_socket` with the "rejected" reason. -/
+theorem C06_cea_ready_only_with_2001 (s : St) (cid : Nat) (m : AMsg) :
+    (receiveCea s cid m).1.oql = s.oql ∧
+    (NoNewReady (receiveCea s cid m).1 s ∨ (m.rc = some 2001 ∧ m.oh.isSome = true ∧ (receiveCea s cid m).2 = none)) ∧
+    (m.rc ≠ some 2001 → (receiveCea s cid m).1 = closeConnectionSocket s cid .rejected) := by
+  refine ⟨oql_receiveCea s cid m, ?_, ?_⟩
+  · unfold receiveCea
+    split
+    · exact Or.inl (NoNewReady_closeConnectionSocket s cid _)
+    · rename_i hrc
+      have hrc' : m.rc = some 2001 := by simpa using hrc
+      split
+      · exact Or.inl (NoNewReady.refl s)
+      · rename_i oh hoh
+        exact Or.inr ⟨hrc', by rw [hoh]; rfl, rfl⟩
+  · intro h
+    unfold receiveCea
+    have : (m.rc != some 2001) = true := by simpa using h
+    simp only [this, if_true]
 
 end DV.Node
